@@ -90,7 +90,7 @@ class C02(Check):
             ops = [[]]
             for i in range(196):
                 if w.random() < 0.06:
-                    ops.append({"noise": w.getrandbits(32), "weight": w.choice([3, 5, 98])})
+                    ops.append({"noise": w.getrandbits(32), "weight": w.choice([3, 5, 98, -1])})  # -1: a failing call (195-bit word: raises)
                 ops.append([i])
             ops.append([])
             return {"message": v.to_bytes(12, "big").hex(), "mclass": cls, "inplace": True, "little": index % 2 == 1, "ops": ops}
@@ -140,12 +140,16 @@ class C02(Check):
             if isinstance(p, dict):  # noise reception: a corrupted-beyond-repair word of some other transmission; nothing is judged
                 r = _random.Random(p["noise"])
                 nz = BPTC19696.encode(bitarray([r.getrandbits(1) for _ in range(96)]))
-                for i in r.sample(range(196), p.get("weight", 98)):
-                    nz.invert(i)
-                try:
-                    BPTC19696.deinterleave_data_bits(nz, True)
-                except Exception:
-                    pass
+                if p.get("weight", 98) < 0:
+                    nz = nz[:195]
+                else:
+                    for i in r.sample(range(196), p.get("weight", 98)):
+                        nz.invert(i)
+                for f in (lambda: BPTC19696.deinterleave_data_bits(nz, True), lambda: BPTC19696.encode(nz[:95]) if len(nz) < 196 else None):
+                    try:
+                        f()
+                    except Exception:
+                        pass
                 res.fault("noise_reception")
                 continue
             res["evals"] += 1
